@@ -16,6 +16,11 @@ def run(ctx):
         C06_bin = None
     if C06_bin:
         C06_bin.run_binary(ctx)
+    # >>> a_c06 (wave 4): pointer ranges of text scalars, payload positions of binary tokens (independent lexer),
+    # parse_slice / reused-tape entry points, mutated documents, end-of-input classes, checker cross-check
+    from props import C06_ptr
+    C06_ptr.run(ctx)
+    # <<< a_c06
 
 
 def search(ctx):
